@@ -307,6 +307,7 @@ func list(xs []string) string {
 
 type gstate struct {
 	loopFound, loopParked  bool
+	loopStuck              bool // blocked somewhere else than at its outer select (inside process(): holding the mutex)
 	workers, workersParked int
 }
 
@@ -353,6 +354,7 @@ func (h *hcase) gstates() (g gstate) {
 			// parked = blocked in the OUTER select (not inside process() / iterator(), whose select has a default
 			// in the code as it is, but must not be mistaken for the outer one when a change makes it block)
 			g.loopParked = st == "select" && !strings.Contains(b, ".process(") && !strings.Contains(b, ".iterator.")
+			g.loopStuck = blockedState[st] && !g.loopParked
 		case strings.Contains(b, ".(*TreeScheduler).work"):
 			g.workers++
 			if st == "chan receive" {
@@ -535,15 +537,28 @@ func (h *hcase) settle(wantCkpts int) (snap scheduler.VerifSnapshot, ok bool) {
 		}
 		// the loop is running: wait for two complete passes, or until it has parked (the next round judges that)
 		var q pause
+		stuck := false
 		for n := 1; atomic.LoadInt64(&h.mc.reads) < r0+8 && time.Since(start) <= hardDeadline; n++ {
 			q.sleep()
 			if n%8 == 0 {
-				if g := h.gstates(); g.loopParked {
+				g := h.gstates()
+				if g.loopParked {
+					break
+				}
+				if g.loopStuck && g.workersParked == g.workers {
+					// the loop itself is blocked inside its locked region and no worker can move: taking the snapshot
+					// will either succeed or be recognised as blocked for good (guarded)
+					stuck = true
 					break
 				}
 			}
 		}
 		if atomic.LoadInt64(&h.mc.reads) < r0+8 {
+			if stuck {
+				if b, alive := h.state(); !alive {
+					return b, false
+				}
+			}
 			continue
 		}
 		g2 := h.gstates()
